@@ -586,6 +586,29 @@ func checkAgreedState(c *fw.Ctx) {
 			continue
 		}
 		conds := stageCondsDeep(*last)
+		// a condition under which every iterative auth stage runs as well (an early exit of the
+		// whole resolution) does not make the re-application conditional relative to them
+		if conds != "" {
+			var keep []string
+			for _, atom := range strings.Split(conds, " && ") {
+				everywhere := len(auths) > 0
+				for _, a := range auths {
+					has := false
+					for _, x := range strings.Split(stageCondsDeep(a), " && ") {
+						if x == atom {
+							has = true
+						}
+					}
+					if !has {
+						everywhere = false
+					}
+				}
+				if !everywhere {
+					keep = append(keep, atom)
+				}
+			}
+			conds = strings.Join(keep, " && ")
+		}
 		if conds != "" && (strings.Contains(conds, "free:") || fw.OpaqueDispatchAny(fn) != "") {
 			// the condition is over a variable of an enclosing routine (the driver is a function
 			// literal or runs its steps through function values): which calls it covers is not known
